@@ -274,6 +274,92 @@ fn invalid_embedded() -> BoxedStrategy<Case07> {
         .boxed()
 }
 
+/// a skeleton of nested capturing and non-capturing groups with one back-reference somewhere in it; whether the
+/// reference is legal is decided by a model that only tracks which groups have been closed at that point
+fn backref_position() -> BoxedStrategy<Case07> {
+    (prop::collection::vec(0u8..8, 1..16), any::<u16>(), any::<u16>(), 0usize..10, prop::bool::weighted(0.3)).prop_map(|(ops, at1, at2, n, quantify)| {
+        // later positions and low group numbers more often, or nearly every reference is to a group that is not there
+        let at = (at1.max(at2) as usize * (ops.len() + 1)) >> 16;
+        let n: u32 = [1, 1, 1, 1, 2, 2, 2, 3, 4, 5][n];
+        let mut p = String::new();
+        // stack of open groups: Some(nr) capturing, None non-capturing
+        let mut open: Vec<Option<u32>> = vec![];
+        let mut opened = 0u32;
+        let mut closed: Vec<u32> = vec![];
+        let mut verdict: Option<(bool, String)> = None;
+        let mut last_was_atom = false;
+        for (i, op) in ops.iter().enumerate() {
+            if i == at {
+                let ok = closed.contains(&n);
+                let why = if ok {
+                    format!("group {n} is closed before the reference")
+                } else if n <= opened {
+                    format!("group {n} is still open at the reference (open groups {:?}, {} non-capturing groups closed before)", open.iter().flatten().collect::<Vec<_>>(), p.matches("(?:").count())
+                } else {
+                    format!("group {n} does not exist yet at the reference ({opened} opened so far)")
+                };
+                verdict = Some((ok, why));
+                p.push_str(&format!("\\{n}"));
+                last_was_atom = true;
+            }
+            match op {
+                0 | 1 => {
+                    opened += 1;
+                    open.push(Some(opened));
+                    p.push('(');
+                    last_was_atom = false;
+                }
+                2 => {
+                    open.push(None);
+                    p.push_str("(?:");
+                    last_was_atom = false;
+                }
+                3 | 4 => {
+                    if let Some(g) = open.pop() {
+                        if let Some(nr) = g {
+                            closed.push(nr);
+                        }
+                        p.push(')');
+                        last_was_atom = true;
+                    } else {
+                        p.push('b');
+                        last_was_atom = true;
+                    }
+                }
+                5 => {
+                    p.push('|');
+                    last_was_atom = false;
+                }
+                6 if quantify && last_was_atom => {
+                    p.push('*');
+                    last_was_atom = false;
+                }
+                _ => {
+                    p.push('a');
+                    last_was_atom = true;
+                }
+            }
+        }
+        if verdict.is_none() {
+            let ok = closed.contains(&n);
+            verdict = Some((ok, if ok { format!("group {n} is closed before the reference") } else { format!("group {n} is not closed at the reference") }));
+            p.push_str(&format!("\\{n}"));
+        }
+        while let Some(_) = open.pop() {
+            p.push(')');
+        }
+        // a letter after the reference keeps it a one-digit reference
+        let p = p.replace(&format!("\\{n}"), &format!("\\{n}z")).replace("\\\\", "\\");
+        let (ok, why) = verdict.unwrap();
+        if ok {
+            Case07::Valid { pattern: p, flags: String::new(), why: "back-reference;capturing-group".to_string() }
+        } else {
+            Case07::Invalid { pattern: p, flags: String::new(), why: format!("back-reference position: {why}") }
+        }
+    })
+    .boxed()
+}
+
 /// whole-pattern mutations of a valid pattern that unbalance it
 fn invalid_unbalanced() -> BoxedStrategy<Case07> {
     let mut cfg = GenCfg::basic(&['a', 'b', '1']);
@@ -320,6 +406,9 @@ fn check(case: &Case07, ctx: &mut Ctx) -> Verdict {
     match case {
         Case07::Valid { why, .. } => {
             ctx.obs.label("must-accept");
+            if why == "back-reference;capturing-group" {
+                ctx.obs.label("backref-position:legal");
+            }
             for p in why.split(';') {
                 ctx.obs.label(&format!("production:{p}"));
             }
@@ -332,6 +421,9 @@ fn check(case: &Case07, ctx: &mut Ctx) -> Verdict {
         }
         Case07::Invalid { why, .. } => {
             ctx.obs.label("must-reject");
+            if why.starts_with("back-reference position: group") {
+                ctx.obs.label(if why.contains("still open") { "backref-position:group-still-open" } else { "backref-position:group-not-there" });
+            }
             ctx.obs.nontrivial(&(&pattern, &flags));
             if got != "Syntax" {
                 return Verdict::Fail(Failure { sub: "invalid-accepted".into(), expected: "Err(Syntax)".into(), actual: got, detail: format!("pattern={pattern:?} flags={flags:?} because: {why}") });
@@ -361,6 +453,7 @@ impl Prop for C07 {
             Part { name: "valid-two-digit-backref".into(), strategy: valid_backref10(), cases: tier.pick(2_000, 20_000) },
             Part { name: "invalid-embedded".into(), strategy: invalid_embedded(), cases: tier.pick(100_000, 2_000_000) },
             Part { name: "invalid-unbalanced".into(), strategy: invalid_unbalanced(), cases: tier.pick(100_000, 2_000_000) },
+            Part { name: "backref-position".into(), strategy: backref_position(), cases: tier.pick(100_000, 2_000_000) },
         ]
     }
     fn enumerations(&self, _tier: Tier) -> Vec<(String, String, Box<dyn Iterator<Item = Case07> + Send>)> {
@@ -387,6 +480,9 @@ impl Prop for C07 {
         let mut g: Vec<Guard> = PRODUCTIONS.iter().map(|p| Guard { label: format!("production:{p}"), of: "".into(), min_fraction: 1e-9 }).collect();
         g.push(Guard { label: "must-reject".into(), of: "".into(), min_fraction: 0.2 });
         g.push(Guard { label: "flags:valid".into(), of: "".into(), min_fraction: 0.0001 });
+        for l in ["backref-position:legal", "backref-position:group-still-open", "backref-position:group-not-there"] {
+            g.push(Guard { label: l.into(), of: "".into(), min_fraction: 0.01 });
+        }
         g
     }
     fn assumptions(&self) -> Vec<String> {
